@@ -118,6 +118,9 @@ def shapes() -> dict[str, tuple[dict, list]]:
     S["collide_dots"] = ({"st": ["mean.0"], "st.mean": one, "u": one}, [("st", "mean.0", "u"), ("st.mean", "0", "u")])
     # more computable tasks and idle workers in one round than any per-round limit a controller might have (34 > 32)
     S["wide34"] = ({"s": one, **{f"m{i:02d}": one for i in range(34)}}, [("s", "0", f"m{i:02d}") for i in range(34)])
+    # a component with an undirected cycle next to another component, on fewer hosts than components
+    S["ladder_plus"] = ({"a": one, "b": one, "c": one, "d": one, "p": one, "q": one},
+                        [("a", "0", "b"), ("a", "0", "c"), ("b", "0", "d"), ("c", "0", "d"), ("a", "0", "d"), ("p", "0", "q")])
     S["fanout4"] = ({"s": one, "m1": one, "m2": one, "m3": one, "m4": one}, [("s", "0", "m1"), ("s", "0", "m2"), ("s", "0", "m3"), ("s", "0", "m4")])
     S["multiout3"] = ({"g": ["0", "1", "2"], "u": one, "v": one}, [("g", "0", "u"), ("g", "2", "u"), ("g", "1", "v")])
     S["sixtasks"] = ({"a": one, "b": one, "c": one, "d": one, "p": one, "q": one},
@@ -197,6 +200,9 @@ def quick_instances() -> list[Instance]:
         outs, edges = S["gpumix"]
         I.append(Instance(f"gpumix_{nh}x{nw}_allgpu", outs, edges, cluster(nh, nw), [("k", "0")], trace_only=True,
                           gpu_workers=[f"h{i}.w{j}" for i in range(nh) for j in range(nw)], gpu_tasks=["g"]))
+    for nh, nw in [(1, 1), (1, 2)]:
+        outs, edges = S["ladder_plus"]
+        I.append(Instance(f"ladder_plus_{nh}x{nw}_sinks", outs, edges, cluster(nh, nw), [("d", "0"), ("q", "0")], trace_only=True))
     # mixed hosts: what Executor registers with one GPU and two workers (w0 has it, w1 has none), next to a GPU-less host
     for shape, nh, nw, gw, gt in [("gpufan", 1, 2, ["h0.w0"], ["g1", "g2", "g3"]), ("gpufan", 2, 2, ["h0.w0"], ["g1", "g2", "g3"]),
                                   ("gpufan", 2, 2, ["h0.w1", "h1.w0"], ["g1", "g2"]), ("gpusrc2", 1, 2, ["h0.w0"], ["g1", "g2"]),
@@ -212,7 +218,7 @@ def thorough_instances() -> list[Instance]:
     I = list(quick_instances())
     seen = {i.name for i in I}
     for shape, (outs, edges) in S.items():
-        if shape in ("empty", "manyout", "manyin", "sixtasks", "gpumix", "fanout4", "gpufan", "gpusrc2", "fanvee", "twofan", "collide", "collide_dots", "wide34"):
+        if shape in ("empty", "manyout", "manyin", "sixtasks", "gpumix", "fanout4", "gpufan", "gpusrc2", "fanvee", "twofan", "collide", "collide_dots", "wide34", "ladder_plus"):
             continue
         alld = [(t, o) for t in outs for o in outs[t]]
         snk = sinks(outs, edges)
